@@ -38,8 +38,8 @@ def get_local_world_size(pg: PGWrapper) -> int:
     pg.all_gather_object(obj_list=obj_list, obj=hostname)
 
     hostname_world_size = defaultdict(int)
-    for hostname in obj_list:
-        hostname_world_size[hostname] += 1
+    for peer_hostname in obj_list:
+        hostname_world_size[peer_hostname] += 1
 
     return hostname_world_size[hostname]
 
